@@ -1,7 +1,10 @@
 package main
 
 import (
+	"context"
+	"errors"
 	"io"
+	"net"
 	"os"
 	"strings"
 
@@ -16,6 +19,16 @@ func runOracle(c *Ctx, engine string, lines []string) ([]string, error) {
 }
 
 // errClass maps a Go error from the stream/message layers onto the model's error classes.
+//
+// Identity first, text last: sentinel errors are recognised with errors.Is / errors.As wherever the
+// library wraps them; the wording of a message is consulted only for classes the library expresses
+// in no other way, and an unknown wording is "other:" (accepted by diffBatch wherever the model also
+// reports an error). Two points of order matter:
+//   - a BARE io.EOF is "end of the current message" (the library's own callers test `err == io.EOF`);
+//     an io.EOF that arrives WRAPPED ("failed to read frame header: %w") is the connection ending;
+//   - the letters "EOF" / "closed" inside a message are the weakest evidence there is ("failed to read
+//     EOF marker: ..." is about a file marker): they are looked at after every specific class, and
+//     "EOF" only as the cause at the end of the chain of messages.
 func errClass(err error) string {
 	if err == nil {
 		return ""
@@ -40,8 +53,6 @@ func errClass(err error) string {
 		return "authFail"
 	case has("hit maximum number"):
 		return "counterMax"
-	case has("EOF"), has("closed"):
-		return "eof"
 	case has("cannot write to message after"), has("already called"), has("no message currently"), has("already reading"):
 		return "state"
 	case has("not fully consumed"):
@@ -50,14 +61,14 @@ func errClass(err error) string {
 		return "malformed"
 	case has("exceeds maximum allowed size"):
 		return "sizeExceeded"
-	case has("ExportCryptoState"):
-		return "refused"
-	case has("NewStreamWithCryptoState"):
-		return "malformed"
-	case has("deadline exceeded"), has("context canceled"):
+	case errors.Is(err, context.Canceled), errors.Is(err, context.DeadlineExceeded), has("deadline exceeded"), has("context canceled"):
 		return "cancelled"
+	case errors.Is(err, io.EOF), errors.Is(err, io.ErrUnexpectedEOF), errors.Is(err, net.ErrClosed), errors.Is(err, io.ErrClosedPipe):
+		return "eof"
+	case strings.HasSuffix(m, "EOF"), has(": EOF"), has("unexpected EOF"), has("closed"):
+		return "eof" // a cause wrapped without %w
 	}
-	return "other:" + strings.ReplaceAll(m, " ", "_")
+	return "other:" + strings.Join(strings.Fields(m), "_") // every run of white space (errors.Join puts newlines): one token
 }
 
 // tokEsc renders an arbitrary string as ONE token of a model-input line: the empty string is `~`;
